@@ -144,7 +144,14 @@ def register5(reg):
     # normalisation under ignorecase, done per configuration, and the lookup agree)
     contract(reg, f'{K}:ParserCore._initialize_caches', ['C11', 'C10', 'C04'], {'self': 'Ctx'}, ret='None', verify=False, wf=False,
              modifies=['self._memos', 'self._results', 'self.states.state_stack', 'self.states.callstack'],
-             note='allocates the memo tables (BoundedDict) and a fresh state stack; C10 checks the idle state in a bounded run')
+             ensures=['len(self.states.state_stack) == 1', 'len(self.states.callstack) == 0'],
+             note='allocates the memo tables (BoundedDict) and a fresh state stack of one frame; C10 checks the idle state in a bounded run')
     contract(reg, f'{K}:ParserCore._reset', ['C11', 'C10'], {'self': 'Ctx'}, ret='None', wf=False,
              modifies=['self._memos', 'self._results', 'self.states.state_stack', 'self.states.callstack', 'self.keywords', 'self.semantics'],
-             ensures=[('property', 'self.keywords == self._active_config.keywords')])
+             ensures=[('property', 'implies(not self._active_config.ignorecase, self.keywords == self._active_config.keywords)'),
+                      # under ignorecase the table holds exactly the upper-cased keywords (C11: compared case-insensitively)
+                      ('property', 'implies(self._active_config.ignorecase, forall_keys(self.keywords, lambda k: '
+                                   'implies(k in self._active_config.keywords, k.upper() in self.keywords)))'),
+                      ('property', 'implies(self._active_config.ignorecase, forall_keys(self.keywords, lambda s: implies(s in self.keywords, '
+                                   'exists_key(self.keywords, lambda k: k in self._active_config.keywords and k.upper() == s))))'),
+                      'len(self.states.state_stack) == 1', 'len(self.states.callstack) == 0'])
